@@ -233,11 +233,11 @@ func init() {
 }
 
 type c14Obs struct {
-	states        map[string]bool
-	evictedLent   bool
-	throughZero   bool
-	seqs          int64
-	steps         int64
+	states      map[string]bool
+	evictedLent bool
+	throughZero bool
+	seqs        int64
+	steps       int64
 }
 
 func (ob *c14Obs) note(e *fcEnv, o fop, prevCap int) {
